@@ -26,7 +26,7 @@ func (m *Mutex) Lock() {
 		m.real.Lock()
 		return
 	}
-	s.Yield()
+	s.YieldSync()
 	for m.held && m.owner == s {
 		if s.Terminating() {
 			return
@@ -42,7 +42,7 @@ func (m *Mutex) TryLock() bool {
 	if s == nil {
 		return m.real.TryLock()
 	}
-	s.Yield()
+	s.YieldSync()
 	if m.held && m.owner == s {
 		return false
 	}
@@ -92,7 +92,7 @@ func (m *RWMutex) Lock() {
 		m.real.Lock()
 		return
 	}
-	s.Yield()
+	s.YieldSync()
 	m.epoch(s)
 	for m.writer || m.readers > 0 {
 		if s.Terminating() {
@@ -108,7 +108,7 @@ func (m *RWMutex) TryLock() bool {
 	if s == nil {
 		return m.real.TryLock()
 	}
-	s.Yield()
+	s.YieldSync()
 	m.epoch(s)
 	if m.writer || m.readers > 0 {
 		return false
@@ -140,7 +140,7 @@ func (m *RWMutex) RLock() {
 		m.real.RLock()
 		return
 	}
-	s.Yield()
+	s.YieldSync()
 	m.epoch(s)
 	for m.writer {
 		if s.Terminating() {
@@ -156,7 +156,7 @@ func (m *RWMutex) TryRLock() bool {
 	if s == nil {
 		return m.real.TryRLock()
 	}
-	s.Yield()
+	s.YieldSync()
 	m.epoch(s)
 	if m.writer {
 		return false
@@ -232,7 +232,7 @@ func (c *Cond) Signal() {
 		c.realCond().Signal()
 		return
 	}
-	s.Yield()
+	s.YieldSync()
 	s.UnblockOne(&c.waiters)
 }
 
@@ -242,7 +242,7 @@ func (c *Cond) Broadcast() {
 		c.realCond().Broadcast()
 		return
 	}
-	s.Yield()
+	s.YieldSync()
 	s.Unblock(&c.waiters)
 }
 
@@ -269,7 +269,7 @@ func (wg *WaitGroup) Add(delta int) {
 		wg.real.Add(delta)
 		return
 	}
-	s.Yield()
+	s.YieldSync()
 	wg.epoch(s)
 	wg.n += delta
 	if wg.n < 0 {
@@ -292,7 +292,7 @@ func (wg *WaitGroup) Wait() {
 		wg.real.Wait()
 		return
 	}
-	s.Yield()
+	s.YieldSync()
 	wg.epoch(s)
 	for wg.n > 0 {
 		if s.Terminating() {
@@ -337,7 +337,7 @@ func (o *Once) Do(f func()) {
 		})
 		return
 	}
-	s.Yield()
+	s.YieldSync()
 	if o.owner != s {
 		o.owner = s
 		o.running = false
